@@ -131,6 +131,8 @@ type BlockResp struct {
 	Commit string
 }
 
+func init() { verifrt.StackFn = repoFrames }
+
 func NewEnv(cfg Config) *Env {
 	w := NewWorld(cfg)
 	e := &Env{W: w, Stats: newStats(), digest: sha256.New(), seqCache: map[string]uint64{}, lastOp: map[string]string{}, KnownHits: map[string]int{}}
@@ -192,6 +194,7 @@ func (e *Env) Init() *PanicInfo {
 		return pi
 	}
 	e.Seq = seq
+	e.observerClock()
 	// After InitChain the genesis state lives in the deliver state (no Commit yet, as in Tendermint).
 	ctx := e.R.App.BaseApp.NewContext(false, e.headerNow())
 	e.R.ClearDirty()
